@@ -49,6 +49,8 @@ func (s *StatusPage) SetRun(idx, seed uint64) {
 	s.put(1, seed)
 	s.put(2, 0)
 	s.put(3, 0)
+	s.put(5, 0)
+	s.put(6, 0)
 }
 
 // SetStep records the step and whether a library call is in flight (1) or not (0).
@@ -59,11 +61,41 @@ func (s *StatusPage) SetStep(step uint64, inCall uint64) {
 	s.put(3, inCall)
 }
 
+// SetNote records a short description of the in-flight call (for the report of
+// a process death). Only used on paths where a death is conceivable.
+//
+//go:norace
+func (s *StatusPage) SetNote(note string) {
+	if s == nil {
+		return
+	}
+	n := len(note)
+	if n > 300 {
+		n = 300
+	}
+	for i := 0; i < n; i++ {
+		s.b[128+i] = note[i]
+	}
+	s.put(5, uint64(n))
+}
+
+// SetMinimising marks that the worker is executing shrink candidates in-process
+// (a death now is not a property of the ORIGINAL plan).
+func (s *StatusPage) SetMinimising(on bool) {
+	v := uint64(0)
+	if on {
+		v = 1
+	}
+	s.put(6, v)
+}
+
 // SetDone marks the worker as having finished its batch normally.
 func (s *StatusPage) SetDone() { s.put(4, 1) }
 
 type StatusSnapshot struct {
 	Idx, Seed, Step, InCall, Done uint64
+	Minimising                    uint64
+	Note                          string
 }
 
 func ReadStatus(path string) (StatusSnapshot, error) {
@@ -72,5 +104,9 @@ func ReadStatus(path string) (StatusSnapshot, error) {
 		return StatusSnapshot{}, err
 	}
 	g := func(i int) uint64 { return binary.LittleEndian.Uint64(b[i*8:]) }
-	return StatusSnapshot{g(0), g(1), g(2), g(3), g(4)}, nil
+	st := StatusSnapshot{Idx: g(0), Seed: g(1), Step: g(2), InCall: g(3), Done: g(4), Minimising: g(6)}
+	if n := g(5); n > 0 && n <= 300 && len(b) >= 128+int(n) {
+		st.Note = string(b[128 : 128+n])
+	}
+	return st, nil
 }
